@@ -461,6 +461,12 @@ func check(c Case, r *vh.R) {
 			r.Failf("clean-eof-short", "%s: clean EOF after only %d of the %d committed payload octets", what(), len(out), len(p))
 			return
 		}
+		if c.Mut.Kind == "append" && c.Mut.A >= 1 && len(stream) > len(honest) {
+			// "... extension ... is detected": octets appended to the honest stream can never be part of
+			// a stream the digest commits to, so the decoder must not end with a clean EOF
+			r.Failf("extension-undetected", "%s: %d octets were appended to the honest stream, yet the decoder reported clean end-of-stream", what(), c.Mut.A)
+			return
+		}
 		r.Class("clean-eof-full")
 		return
 	}
@@ -599,7 +605,7 @@ func TestExhaustiveMutations(t *testing.T) {
 							return
 						}
 					}
-					for _, n := range dedupInts([]int{1, 31, 32, 33, rs, rs + 32}) {
+					for _, n := range dedupInts([]int{1, 2, 7, 8, 9, 31, 32, 33, rs, rs + 32}) {
 						for _, seed := range []int64{0, int64(1000*cfg + n)} {
 							if !run(Mut{Kind: "append", A: n, Seed: seed}, 16384) {
 								return
@@ -761,7 +767,7 @@ func TestPropMutation(t *testing.T) {
 				m.A = 0
 			}
 		case "append":
-			m.A = rapid.SampledFrom([]int{1, 31, 32, 33, rs, rs + 32, unit + 1, 2 * unit}).Draw(t, "suffix")
+			m.A = rapid.SampledFrom([]int{1, 2, 7, 8, 9, 31, 32, 33, rs, rs + 32, unit + 1, 2 * unit}).Draw(t, "suffix")
 			if rapid.Bool().Draw(t, "random-suffix") {
 				m.Seed = rapid.Int64Range(1, 1<<40).Draw(t, "suffix-seed")
 			}
